@@ -492,11 +492,13 @@ def N7_rewind_under_guard(ctx):
     facts = ctx.facts
     sites = facts.callers_of(lambda c: callee_matches(c, REWIND))
     prod = [(b, bl, t) for b, bl, t in sites if not facts.is_test(b['fn'], b)]
-    by_fn = collections.Counter(short_name(b['fn']) for b, _, _ in prod)
+    by_fn = collections.Counter(o for b, _, _ in prod for o in facts.owners(b['fn']))
     ctx.count('N7.rewind-call-sites', len(prod))
     ctx.ob('N7', 'scheduler', 'anchor:rewind-call-sites', len(prod) >= 4,
            f'expected >= 4 production call sites of rewind_validation_to, found {dict(by_fn)}')
     for b in {b['fn']: b for b, _, _ in prod}.values():
+        if facts.is_new_fn(b['fn']):
+            continue  # analysed through its callers (inlined), where the guard is visible
         f = ctx.fn(b)
         bad = []
         n = 0
@@ -667,14 +669,14 @@ def N8_status_relation(ctx):
                 if pr and pr[-1].endswith('TxState.status'):
                     writers.add(b['fn'])
     expected = {'run_finality_loop', 'execute_task', 'validate', 'execution_task', 'next'}
-    got = {w.split('::')[-1] for w in writers}
+    got = set().union(*[facts.owners(w) for w in writers] or [set()])
     ctx.count('N8.status-writers', len(writers))
     ctx.ob('N8', 'model::TxState.status', 'who-writes-status', got == expected,
            f'writers of TxState.status: {sorted(got)}; expected {sorted(expected)}',
            what='every status writer is part of the transition relation; a new writer is new behaviour and must be triaged')
     rel = set()
     unknown = []
-    for w in sorted(writers):
+    for w in sorted(set().union(*[facts.owner_bodies(w0) for w0 in writers] or [set()])):
         f = ctx.fn(facts.by[w])
         for p in live(f.paths()):
             for e in assigns(p, 'TxState.status'):
@@ -710,7 +712,7 @@ def N9_incarnation(ctx):
                 pr = [x for x in st['lhs']['proj'] if x != '*']
                 if pr and pr[-1].endswith('TxState.incarnation'):
                     writers.add(b['fn'])
-    got = {w.split('::')[-1] for w in writers}
+    got = set().union(*[facts.owners(w) for w in writers] or [set()])
     ctx.ob('N9', 'model::TxState.incarnation', 'who-writes-incarnation', got == {'execution_task'},
            f'writers: {sorted(got)}', what='the incarnation number is the version validation compares; only a new execution may change it')
     f = sched(ctx, 'execution_task')
